@@ -25,7 +25,9 @@ import (
 	"math/rand"
 	"net"
 	"os"
+	"path/filepath"
 	"runtime"
+	"sort"
 	"strconv"
 	"strings"
 	"sync"
@@ -109,12 +111,41 @@ func TestVerifC10Share(t *testing.T) {
 	addr := pc.LocalAddr().String()
 	r := newAttackHarnessResolver(&authority.Servers{Zone: "."})
 
-	for cn := 0; cn < n; cn++ {
+	// corpus/C10/share-*.json: fixed caller configurations replayed first
+	// ([{"callers": 4, "tags": [0,0,0,4], "one_p": true}, ...])
+	type fixedShare struct {
+		Callers int    `json:"callers"`
+		Tags    []byte `json:"-"`
+		TagInts []int  `json:"tags"`
+		OneP    bool   `json:"one_p"`
+	}
+	var corpus []fixedShare
+	if dir := os.Getenv("VERIF_CORPUS"); dir != "" {
+		files, _ := filepath.Glob(filepath.Join(dir, "share-*.json"))
+		sort.Strings(files)
+		for _, p := range files {
+			if b, err := os.ReadFile(p); err == nil {
+				var cs []fixedShare
+				if json.Unmarshal(b, &cs) == nil {
+					corpus = append(corpus, cs...)
+				}
+			}
+		}
+	}
+
+	for cn := -len(corpus); cn < n; cn++ {
 		nw := 1 + rnd.Intn(6)
 		if rnd.Intn(4) == 0 {
 			nw = 1
 		}
-		name := fmt.Sprintf("share%d-s%d.c10.test.", cn, seed)
+		var fixed *fixedShare
+		if cn < 0 {
+			fixed = &corpus[cn+len(corpus)]
+			if fixed.Callers >= 1 && fixed.Callers <= 16 {
+				nw = fixed.Callers
+			}
+		}
+		name := fmt.Sprintf("share%d-s%d.c10.test.", cn+1000, seed)
 		servers := &authority.Servers{Zone: ".", List: []*authority.Server{authority.NewServer(addr, authority.IPv4)}}
 		ids := make([]uint16, nw)
 		for i := range ids {
@@ -133,6 +164,16 @@ func TestVerifC10Share(t *testing.T) {
 			}
 		}
 		oneP := rnd.Intn(2) == 0
+		if fixed != nil {
+			oneP = fixed.OneP
+			for i := range tags {
+				tags[i], marks[i] = 0, nil
+				if i < len(fixed.TagInts) && fixed.TagInts[i] > 0 && fixed.TagInts[i] < 250 {
+					tags[i] = byte(fixed.TagInts[i])
+					marks[i] = &dns.TXT{Hdr: dns.RR_Header{Name: "mark.", Rrtype: dns.TypeTXT, Class: dns.ClassINET}, Txt: []string{fmt.Sprint(tags[i])}}
+				}
+			}
+		}
 		prevP := 0
 		if oneP {
 			prevP = runtime.GOMAXPROCS(1)
@@ -171,6 +212,9 @@ func TestVerifC10Share(t *testing.T) {
 		kind := fmt.Sprintf("share-%d-callers", nw)
 		if oneP {
 			kind += "-1p"
+		}
+		if fixed != nil {
+			kind = "corpus:" + kind
 		}
 		line := map[string]any{"k": kind}
 		inconclusive := false
